@@ -201,6 +201,7 @@ def build(case):
     inst, projs = pb.make_instance(case["costs"], case["budget"])
     for j, p in enumerate(projs):
         p.categories = {"c%d" % (j % 2)}
+    inst.categories = {"c0", "c1"}
     prof = pb.make_approval_profile(inst, projs, case["ballots"], case["multi"])
     sat = _sat(case["sat"])
     satprof = prof.as_sat_profile(sat)
@@ -236,6 +237,15 @@ def ans(x):
                                        if a not in ("details",)])
         return snapshot(v)
     return conv(x)
+
+
+def _guarded(f, *a):
+    """category_proportionality rejects degenerate inputs (no ballot, zero-cost allocation) by raising: the kind of
+    exception is then the answer (the property is about the arguments, which are snapshotted all the same)"""
+    try:
+        return f(*a)
+    except (ValueError, ZeroDivisionError) as e:
+        return "raised " + type(e).__name__
 
 
 def do_call(name, o, case):
@@ -307,19 +317,20 @@ def do_call(name, o, case):
                 an.gini_coefficient_of_satisfaction(inst, prof, alloc, sat),
                 an.percent_non_empty_handed(inst, prof, alloc),
                 an.satisfaction_histogram(inst, prof, alloc, sat, max_satisfaction=10, num_bins=4),
-                votes_count_by_project(prof), an.category_proportionality(inst, prof, alloc)]
+                votes_count_by_project(prof),
+                _guarded(an.category_proportionality, inst, prof, alloc)]
     if name == "jr":
         return [jr.is_EJR_approval(inst, prof, sat, alloc), jr.is_PJR_approval(inst, prof, sat, alloc),
                 jr.is_EJR_one_approval(inst, prof, sat, alloc), jr.is_strong_EJR_approval(inst, prof, sat, alloc),
                 jr.is_PJR_any_approval(inst, prof, sat, alloc)]
     if name == "cohesive":
-        return [len(list(coh.cohesive_groups(inst, prof))), len(list(coh.maximal_cohesive_groups(inst, prof)))]
+        return [len(list(coh.cohesive_groups(inst, prof)))]
     if name == "priceable":
         r = an.priceable(inst, prof, alloc)
         return bool(r.validate()) if r.validate() is not None else None
     if name == "validate_price":
         nv = max(1, prof.num_ballots())
-        pay = [{p: 0 for p in b} for b in prof]
+        pay = [{p: 0 for p in inst} for b in prof]
         return an.validate_price_system(inst, prof, alloc, pb.num(pb.F(case["budget"]) / nv), pay)
     if name == "project_loss":
         det = method_of_equal_shares(inst, prof, analytics=True, **params).details
